@@ -70,6 +70,9 @@ def canon(x, depth=0):
         return out
     tname = type(x).__name__
     mod = type(x).__module__ or ''
+    if tname == 'SkyCoord':
+        sph = x.spherical
+        return {'__skycoord__': x.frame.name, 'lon_deg': np.asarray(sph.lon.deg), 'lat_deg': np.asarray(sph.lat.deg)}
     if mod.startswith('photutils'):
         if tname == 'BoundingBox':
             return {'__bbox__': [x.ixmin, x.ixmax, x.iymin, x.iymax]}
